@@ -159,3 +159,21 @@ def _setup_case(report_kind):
 
 CONTRACTS.append(Contract("wntr.sim.core:WNTRSimulator._setup_sim_options", ["C16", "C11", "C04"], [_setup_case(k) for k in ("int", "ALL", "all", "hourly")],
                           note="NewtonSolver without options; the scipy fsolve branches are not exercised"))
+
+
+# ---------------------------------------------------------------------------- bounded: failures injected into the real run_sim
+
+from pyvc.runner import Bounded
+
+
+def _faults(i, n):
+    def run(tier, seed):
+        import sys, os
+        sys.path.insert(0, os.path.dirname(os.path.dirname(os.path.abspath(__file__))))
+        from bounded import c16_faults
+        return c16_faults.run(tier, seed, i, n)
+    return run
+
+
+_NF = 4
+BOUNDED = [Bounded("C16.fault_injection[%d/%d]" % (i, _NF), ["C16"], _faults(i, _NF), kind="fault injection into the real run_sim on listed networks (not exhaustive)") for i in range(_NF)]
